@@ -45,7 +45,7 @@ man = {
              'Known findings: /verif/known_findings.json. fix: commits in /repo are listed there as fixed entries. '
              'Thorough tier = quick + the checker self-test of sa/selftest.py (must-fire: test-surviving mutants of '
              'sa/selftest_corpus.json and the seeded changes under /verif/seeded whose meta.json records detection by this '
-             'property - 286 from rounds 1-5 by their own property, and those round-6 slips that the check tells apart from the '
+             'property - rounds 1-5 and 7-12 by their own property, and those round-6 slips that the check tells apart from the '
              'correct twin commit in /verif/extensions; must-stay-silent: 19 behaviour-preserving transformations of sa/refactor.py '
              'and the hand-written behaviour-preserving changes under /verif/benign), all in memory on the current /repo sources; '
              'a self-test disagreement is exit 2. /verif/extensions is an open benchmark of correct non-tidying commits, many of '
